@@ -283,6 +283,8 @@ def twist(rep, tier):
             rp = {"kind": "c07_twist", "args": {"curve": curve, "impl": impl}}
             w = m.w
             one12 = FQ12.one()
+            require(rep, type(w) is FQ12 and [int(c) % p for c in w.coeffs] == [0, 1] + [0] * 10,
+                    "%s %s ground: the module constant w is the adjoined root itself (the class of the indeterminate in F_p[w]/(modulus)): the standard embedding, not a conjugate or negative of it" % (impl, curve), None, rp)
             # ground: psi(i)^2 = psi(-1), i.e. (w^6 - k)^2 = -1, and b12 / b2 relation
             psi_i = w ** 6 - one12 * k
             require(rep, psi_i * psi_i == one12 * (-1), "%s %s ground: psi(i)^2 = -1 in F_p^12 (psi is a ring homomorphism F_p^2 -> F_p^12)" % (impl, curve), None, rp)
@@ -399,3 +401,110 @@ def constants(rep, tier):
             require(rep, m.is_inf(m.multiply(m.G12, m.curve_order)), t + ": r*G12 = O (ground)", None, rp)
             require(rep, pow(2, m.curve_order - 1, m.curve_order) == 1 and pow(3, m.curve_order - 1, m.curve_order) == 1, t + ": curve order passes Fermat tests", None, rp)
     rep.trust("r and p are prime; #E(F_p) = h*r (point counting)")
+
+
+# ---------------------------------------------------------------------------
+# C07.e  whole small curves, exact bit-vector arithmetic, real control flow of the reference add
+
+def _curve_order(p, b):
+    pts = [None] + [(x, y) for x in range(p) for y in range(p) if (y * y - x * x * x - b) % p == 0]
+    return len(pts)
+
+
+def small_curves(pmax):
+    out = []
+    for p in (5, 7, 11, 13, 17, 19, 23):
+        if p > pmax:
+            break
+        for b in range(1, p):
+            n = _curve_order(p, b)
+            if n % 2 == 1 and n > 3:
+                out.append((p, b, n))
+                break
+    return out
+
+
+def _check_small_curve(rep, curve, p, b, order):
+    m = mod(REF[curve])
+    fe = mod("py_ecc.fields.field_elements")
+    rp = {"kind": "c07_small", "args": {"curve": curve, "p": p, "b": b}}
+    T = type("SmallFQ", (fe.FQ,), {"field_modulus": p})
+    tag = "reference %s add on y^2 = x^3 + %d over GF(%d) (order %d)" % (curve, b, p, order)
+
+    def inv_bv(a, n):
+        ctx = core.cur()
+        a = SymZ.lift(a)
+        v = SymZ.var(ctx.fresh_name("inv"), 0, n - 1)
+        am = a % n
+        ctx.add_fact(z3.If(am.t == 0, v.t == 0, z3.URem(am.t * v.t, z3.BitVecVal(n, 16)) == 1))
+        return v
+
+    def pt(ctx, nm):
+        x, y = SymZ.var("x" + nm, 0, p - 1), SymZ.var("y" + nm, 0, p - 1)
+        ctx.assume(z3.URem(y.t * y.t, z3.BitVecVal(p, 16)) == z3.URem(x.t * x.t * x.t + b, z3.BitVecVal(p, 16)))
+        return (T(x), T(y))
+
+    def same(A, B):
+        if A is None or B is None:
+            return z3.BoolVal(A is None and B is None)
+        return z3.And(SymZ.lift(A[0].n).t == SymZ.lift(B[0].n).t, SymZ.lift(A[1].n).t == SymZ.lift(B[1].n).t)
+
+    def on_curve(A):
+        if A is None:
+            return z3.BoolVal(True)
+        x, y = SymZ.lift(A[0].n).t, SymZ.lift(A[1].n).t
+        return z3.And(z3.URem(y * y, z3.BitVecVal(p, 16)) == z3.URem(x * x * x + b, z3.BitVecVal(p, 16)), z3.ULT(x, p), z3.ULT(y, p))
+
+    def run(ctx):
+        P, Q, R_ = pt(ctx, "1"), pt(ctx, "2"), pt(ctx, "3")
+        with world.patched(fe, prime_field_inv=inv_bv):
+            PQ = m.add(P, Q)
+            QP = m.add(Q, P)
+            L = m.add(PQ, R_)
+            Rr = m.add(P, m.add(Q, R_))
+            D = m.double(P)
+            PP = m.add(P, P)
+            Z = m.add(P, m.neg(P))
+        return [("closure", on_curve(PQ)), ("commutativity", same(PQ, QP)), ("associativity (P+Q)+R = P+(Q+R)", same(L, Rr)),
+                ("double(P) = P+P", same(D, PP)), ("P + (-P) = O", z3.BoolVal(Z is None))]
+
+    def on_path(pth):
+        rep.paths += 1
+        if pth.kind != "ret":
+            g, mm = pth.ctx.satisfiable()
+            if g == "sat":
+                rep.fail("%s raised %r" % (tag, pth.value), rp)
+            elif g != "unsat":
+                rep.unknown("%s: feasibility of a raising path undecided" % tag)
+            return
+        for w, gl in pth.value:
+            g, mm = pth.ctx.prove(gl, timeout_ms=120000)
+            rpm = rp
+            if g == "sat":
+                vals = {}
+                for d_ in mm.decls():
+                    if d_.name() in ("x1", "y1", "x2", "y2", "x3", "y3"):
+                        vals[d_.name()] = mm[d_].as_long()
+                rpm = {"kind": "c07_small", "args": dict(rp["args"], model=vals)}
+            require(rep, g, "%s: %s for ALL triples of curve points" % (tag, w), pth.decisions, rpm)
+        g, mm = pth.ctx.prove_side()
+        if g != "unsat":
+            rep.unknown("%s: bit-vector arithmetic may wrap" % tag)
+    core.explore(run, ctx_kwargs=dict(backend=("bv", 16), branch_timeout_ms=60000, max_decisions=200), on_path=on_path, max_paths=5000)
+    rep.stub("prime_field_inv(a, p) -> fresh v with a*v == 1 (mod p), inv0(0) = 0 (contract: C08 prime_field_inv_small)")
+
+
+def _mk_small(curve, idx):
+    def f(rep, tier):
+        cs = small_curves(23)
+        if idx < len(cs):
+            p, b, n = cs[idx]
+            rep.encoded(mod(REF[curve]).add, mod(REF[curve]).double)
+            _check_small_curve(rep, curve, p, b, n)
+    return f
+
+
+for _i in range(4):
+    obligation("C07", "small_curve_all_triples_%d" % _i, tier="thorough", timeout=1800,
+               bound="every triple of points of an odd-order curve y^2 = x^3 + b over a small prime field (GF(5), GF(7), GF(11), GF(13) in turn; first b of odd order): closure, commutativity, associativity incl. all special positions, doubling, inverse; real reference add/double of bn128_curve on exact 16-bit vectors")(
+        _mk_small("bn128", _i))
